@@ -8,14 +8,16 @@ Engine E2 (complete enumeration of finite expression lattices).
     memory(address, nbytes) is the only helper name the emitted source expects (read from the translator)
     and model_read returns the value of the nbytes-byte access at that address of a finite memory.
     The result must be a Python int.  Division by zero valuations are excluded (refsem.Undefined).
-    A '<<' whose count lies in (2^16, 2^52] is not evaluated (Python would build an integer of that many
-    bits); counted under skipped_evals.
+    Every `<<` in the emitted source goes through a value-preserving guard: a count in (2^16, 2^52] with a
+    non-zero left operand is not evaluated (Python would build an integer of that many bits); counted under
+    skipped_evals.
 
 (b) TranslatorMiasm.  The whole exprgen lattice (every node kind except ExprLoc: the families C01 enumerates,
     all FLAG_*/CC_* operators included), ExprAssign (identifier, memory and slice destinations), and every
     node kind over identifier / operator names from a hostile alphabet (quotes, backslashes, spaces, newline,
     NUL, non-ASCII, empty, bytes).  Oracle: eval(src, vars(miasm.expression.expression)) `is` the expression.
 """
+import ast
 import itertools
 import sys
 
@@ -59,6 +61,28 @@ SHL_HI = 1 << 52
 
 # ------------------------------------------------------------------ (a) TranslatorPython
 
+class _Guard(ast.NodeTransformer):
+    def visit_BinOp(self, node):
+        self.generic_visit(node)
+        name = {ast.LShift: "__verif_shl", ast.Pow: "__verif_pow"}.get(type(node.op))
+        if name is None:
+            return node
+        return ast.copy_location(ast.Call(func=ast.Name(id=name, ctx=ast.Load()), args=[node.left, node.right],
+                                          keywords=[]), node)
+
+
+def _shl(a, b):
+    if type(b) is int and type(a) is int and a and SHL_LO < b <= SHL_HI:
+        raise T.SkipEval("'<<' with a count in (2^16, 2^52]: Python would build an integer of that many bits")
+    return a << b
+
+
+def _pow(a, b):
+    if type(b) is int and type(a) is int and a > 1 and b > SHL_LO:
+        raise T.SkipEval("'**' with an exponent above 2^16: Python would build an integer of that many bits")
+    return a ** b
+
+
 class PyBackend(object):
     name = "python"
     big_endian = False
@@ -72,28 +96,19 @@ class PyBackend(object):
 
     def translate(self, e):
         src = self.src(e)
-        code = compile(src, "<TranslatorPython>", "eval")
-        shl = []
-
-        def walk(x):
-            if x.is_op() and x.op == "<<" and x.size > 16:
-                shl.append((x.args[0], x.args[1]))
-            for c in T.children(x):
-                walk(c)
-        walk(e)
-        return {"src": src, "code": code, "shl": shl, "fns": None, "ptr_sizes": T.mem_ptr_sizes(e)}
+        # The emitted source is evaluated as emitted, except that every `a << b` / `a ** b` it contains goes through
+        # a guard with the same value (same operand order): Python would build an integer of b bits, so a count in
+        # (2^16, 2^52] with a non-zero left operand is not evaluated (SkipEval, counted); above 2^52 the real
+        # operator is applied (it fails at once with MemoryError/OverflowError, which is reported).
+        tree = _Guard().visit(ast.parse(src, "<TranslatorPython>", "eval"))
+        code = compile(ast.fix_missing_locations(tree), "<TranslatorPython>", "eval")
+        return {"src": src, "code": code, "ptr_sizes": T.mem_ptr_sizes(e)}
 
     def evaluate(self, h, e, ids, vals, memctx):
         memfn = memctx.read if memctx is not None else refsem.no_mem
-        if h["shl"]:
-            if h["fns"] is None:
-                h["fns"] = [(T.ExprCache(self, ids), a, c) for a, c in h["shl"]]
-            for cache, a, c in h["fns"]:
-                cv = cache.ref(c, vals, memfn)
-                av = cache.ref(a, vals, memfn)
-                if cv is not None and av != 0 and SHL_LO < cv <= SHL_HI:
-                    raise T.SkipEval("'<<' with a count in (2^16, 2^52]: Python would build an integer of that many bits")
         ns = {str(i): v for i, v in zip(ids, vals)}
+        ns["__verif_shl"] = _shl
+        ns["__verif_pow"] = _pow
         if memctx is not None:
             if len(h["ptr_sizes"]) != 1:
                 raise T.SkipEval("several pointer widths in one expression: memory(addr, n) cannot tell them apart")
@@ -263,25 +278,49 @@ def name_class(e):
     return cls
 
 
-def judge_b(e, case):
-    """-> (status, violations)"""
+def _roundtrip(e):
+    """-> None when the emitted source rebuilds e itself, else (status, signature suffix, description)."""
     from miasm.ir.translators import Translator
     try:
         src = Translator.to_language("Miasm").from_expr(e)
     except NotImplementedError:
-        return "not_accepted", []
+        return ("not_accepted", None, None)
     except Exception as ex:
-        return "raise", [violation("miasm|%s|%s|translate-raises:%s" % (kind_of(e), name_class(e), type(ex).__name__),
-                                   "TranslatorMiasm raised %r on %r" % (ex, e), case)]
+        return ("raise", "translate-raises:%s" % type(ex).__name__, "TranslatorMiasm raised %r" % (ex,))
     try:
         r = eval(src, _namespace())
     except Exception as ex:
-        return "raise", [violation("miasm|%s|%s|eval-raises:%s" % (kind_of(e), name_class(e), type(ex).__name__),
-                                   "evaluating the source emitted for %r raised %r; emitted: %s" % (e, ex, src[:300]), case)]
+        return ("raise", "eval-raises:%s" % type(ex).__name__, "evaluating the emitted source raised %r; emitted: %s" % (ex, src[:300]))
     if r is e:
+        return None
+    return ("differ", "rebuilds-%s" % ("equal-but-distinct-object" if r == e else "different-expression"),
+            "the emitted source evaluates to %r; emitted: %s" % (r, src[:300]))
+
+
+def _sub(e):
+    return [e.dst, e.src] if kind_of(e) == "assign" else T.children(e)
+
+
+def judge_b(e, case):
+    """-> (status, violations); a failure is attributed to the deepest sub-expression that fails on its own."""
+    r = _roundtrip(e)
+    if r is None:
         return "ok", []
-    return "differ", [violation("miasm|%s|%s|rebuilds-%s" % (kind_of(e), name_class(e), "equal-but-distinct-object" if r == e else "different-expression"),
-                                "the source emitted for %r evaluates to %r; emitted: %s" % (e, r, src[:300]), case)]
+    if r[0] == "not_accepted":
+        return "not_accepted", []
+    node, nr = e, r
+    while True:
+        for ch in _sub(node):
+            cr = _roundtrip(ch)
+            if cr is not None and cr[0] != "not_accepted":
+                node, nr = ch, cr
+                break
+        else:
+            break
+    what = "construction source of %r: %s" % (e, r[2])
+    if node is not e:
+        what += "; smallest failing sub-expression %r: %s" % (node, nr[2])
+    return r[0], [violation("miasm|%s|%s|%s" % (kind_of(node), name_class(node), nr[1]), what, case)]
 
 
 def shard_b(args):
